@@ -252,8 +252,11 @@ try {
             fprintf(stderr, "warning: no input\n");
             len = 0;
         }
-        while (len > 0 && (buf[len-1] == '\n' || buf[len-1] == '\r')) buf[--len] = 0;
-        script_str = strdup(len > 0 ? buf : "");
+        // (blanks around the script are not part of it: "[OP_1] " was taken for a string because it does not end in ']')
+        while (len > 0 && (buf[len-1] == '\n' || buf[len-1] == '\r' || buf[len-1] == ' ' || buf[len-1] == '\t')) buf[--len] = 0;
+        const char* line = buf;
+        while (len > 0 && (*line == ' ' || *line == '\t')) { ++line; --len; }
+        script_str = strdup(len > 0 ? line : "");
         free(buf);
     } else if (ca.l.size() > 0) {
         script_str = strdup(ca.l[0]);
